@@ -30,6 +30,19 @@ refclm::Chunk gen_chunk(Tape& t, bool afterData = false) {
 	return c;
 }
 
+// which: 0 = the 'fmt ' header, 1 = the 'data' header, 2 = the header of an ordinary chunk between them starts at byte B + d
+void align_header(refclm::WavSpec& sp, unsigned which, uint32_t B, int d, uint8_t fill) {
+	auto len = [](const std::vector<refclm::Chunk>& cs) { size_t n = 0; for (auto& c : cs) n += 8 + c.body.size(); return n; };
+	size_t target = size_t(int64_t(B) + d);
+	refclm::Chunk filler; memcpy(filler.tag, "LIST", 5);
+	if (which == 0) { size_t off = 12 + len(sp.beforeFmt); if (target < off + 8) return; filler.body.assign(target - off - 8, fill); sp.beforeFmt.push_back(filler); return; }
+	if (which == 2) { refclm::Chunk c; memcpy(c.tag, "cue ", 5); c.body.assign(6, fill); sp.between.insert(sp.between.begin(), c); }
+	size_t off = 12 + len(sp.beforeFmt) + 8 + (sp.fmt18 ? 18 : 16) + (which == 2 ? 0 : len(sp.between));
+	if (target < off + 8) return;
+	filler.body.assign(target - off - 8, fill);
+	if (which == 2) sp.between.insert(sp.between.begin(), filler); else sp.between.push_back(filler);
+}
+
 Wav gen_wav(Tape& t, const refclm::WaveFormat& f, size_t maxData) {
 	Wav w; w.base = gen_base(t);
 	w.ext = t.pick<std::string>({".wav", ".WAV", ".Wav", ".wAv", ".wav", ".wav", "", ".wave", ".w", ".snd"});   // the base name is the file name without its last extension, whatever it is
@@ -43,6 +56,9 @@ Wav gen_wav(Tape& t, const refclm::WaveFormat& f, size_t maxData) {
 	for (unsigned i = 0; i < nb; ++i) w.spec.beforeFmt.push_back(gen_chunk(t));
 	for (unsigned i = 0; i < nm; ++i) w.spec.between.push_back(gen_chunk(t));
 	for (unsigned i = 0; i < na; ++i) w.spec.afterData.push_back(gen_chunk(t, true));
+	// one file in eight places a chunk header at (or across) a boundary natural to buffered reading: a filler chunk is sized so that the
+	// header of 'fmt ', of 'data', or of a skipped chunk starts at B-8 .. B+2 for B = 256 .. 65536
+	if (t.below(8) == 0) align_header(w.spec, unsigned(t.below(3)), t.pick<uint32_t>({256, 512, 1024, 4096, 4096, 8192, 16384, 32768, 65536}), int(t.below(6)) * 2 - 8, t.u8());
 	w.bytes = refclm::build_wav(w.spec);
 	return w;
 }
@@ -77,6 +93,15 @@ void success_case(std::vector<Wav> ws, const refclm::WaveFormat& f, Tape& t, Sta
 	V_CHECK(err.empty(), "CLM written by the library is not well-formed: " << err << " (" << ws.size() << " tracks, " << raw.size() << " bytes)");
 	V_CHECK(ents.size() == ws.size(), "CLM index has " << ents.size() << " entries for " << ws.size() << " inputs");
 	if (!ws.empty()) V_CHECK(hf == f, "CLM header does not carry the common wave format");
+	// a fresh object whose very FIRST call is one of the accessors (nothing an earlier call may have loaded or cached is there yet)
+	volgen::mkdirs("%x/all/");
+	if (!ws.empty()) { ClmFile fresh(out); size_t i = t.below(ws.size()); const Wav& w = ws[idx[i]]; unsigned op = unsigned(t.below(5));
+		if (op == 0) { auto s = fresh.OpenStream(i); V_CHECK(s->Length() == w.spec.data.size(), "first call OpenStream(" << i << "): stream length " << s->Length() << " != data length " << w.spec.data.size()); std::vector<uint8_t> got(w.spec.data.size()); s->Read(got.data(), got.size()); V_CHECK(got == w.spec.data, "first call OpenStream(" << i << "): bytes differ"); }
+		else if (op == 1) { std::string xp = "%x/first.wav"; fresh.ExtractFile(i, xp); refclm::WaveFormat xf; std::vector<uint8_t> xd; std::string e2 = refclm::parse_extracted(slurp(xp), xf, xd); V_CHECK(e2.empty() && xd == w.spec.data && xf == f, "first call ExtractFile(" << i << ") wrong: " << e2); remove(xp.c_str()); }
+		else if (op == 2) V_CHECK(fresh.GetSize(i) == w.spec.data.size(), "first call GetSize(" << i << ")");
+		else if (op == 3) V_CHECK(fresh.GetName(i) == w.base, "first call GetName(" << i << ")");
+		else V_CHECK(fresh.GetIndex(w.base) == i && fresh.Contains(w.base), "first call GetIndex");
+		st.cls("first_call:" + std::to_string(op)); }
 	ClmFile c(out);
 	V_CHECK(c.GetCount() == ws.size(), "GetCount " << c.GetCount() << " != " << ws.size());
 	volgen::mkdirs("%x/all/");
@@ -199,6 +224,18 @@ void run_sweep(Stats& st) {
 			Wav w; w.base = i ? "zz_tail" : "Big"; w.ext = ".wav"; w.dir = "";
 			w.spec.fmt = f; w.spec.fmt18 = true; w.spec.data.resize(i ? 9 : dlen); for (size_t k = 0; k < w.spec.data.size(); ++k) w.spec.data[k] = uint8_t(k ^ (k >> 8) ^ (k >> 15) ^ i);
 			if (after) { refclm::Chunk c; memcpy(c.tag, "LIST", 5); c.body = {1, 2, 3, 4}; w.spec.afterData.push_back(c); }
+			w.bytes = refclm::build_wav(w.spec); ws.push_back(w);
+		}
+		Tape t(tp); success_case(ws, f, t, st);
+	}
+	// a chunk header starting at B-8 .. B+2 for the buffer-like sizes B (header wholly before, across, wholly after the boundary), for the
+	// 'fmt ' header, the 'data' header and the header of a skipped chunk; a second track follows so that a wrong length shifts it
+	for (uint32_t B : {256u, 512u, 1024u, 2048u, 4096u, 8192u, 16384u, 32768u, 65536u}) for (unsigned dd = 0; dd < 6; ++dd) for (unsigned which = 0; which < 3; ++which) {
+		if (!sw("header_at", B, dd, which)) continue;
+		std::vector<Wav> ws;
+		for (unsigned i = 0; i < 2; ++i) {
+			Wav w; w.base = i ? "tail" : "Aligned"; w.ext = ".wav"; w.dir = ""; w.spec.fmt = f; w.spec.fmt18 = (dd + which) & 1; w.spec.data.resize(i ? 5 : 70000); for (size_t k = 0; k < w.spec.data.size(); ++k) w.spec.data[k] = uint8_t(k * 3 ^ (k >> 8) ^ i);
+			if (!i) align_header(w.spec, which, B, int(dd) * 2 - 8, uint8_t(0x77));
 			w.bytes = refclm::build_wav(w.spec); ws.push_back(w);
 		}
 		Tape t(tp); success_case(ws, f, t, st);
